@@ -125,3 +125,14 @@ package mod
 //@   in ~/mod
 //@   infunc rebaseAddStep\$1$
 //@   requires diff-ids-change-as-the-layers-do: len(image.RootFS.DiffIDs) - len($ret(GetConfig__6, 0).RootFS.DiffIDs) == len(caller.layers) - len($ret(GetLayers__3, 0))
+
+// ---- C13: options that change nothing change nothing ----
+// Every timestamp option decides through timeModOpt whether a time has to be rewritten. A time that
+// denotes the same INSTANT as the requested one ($ns: the instant of a time.Time, whatever location
+// it carries - tar header times carry Local, parsed ones UTC) is not a change; a change returns the
+// requested time, no change the original one.
+//@ func timeModOpt(t, opt) (r, changed)
+//@   prop C13
+//@   ensures same-instant-is-no-change: $ns(t) == $ns(opt.Set) ==> !changed
+//@   ensures a-change-sets-the-requested-time: changed ==> r == opt.Set
+//@   ensures no-change-keeps-the-time: !changed ==> r == t
